@@ -96,7 +96,7 @@ def engine_hash(srcs):
                 deps.add(tok)
     else:
         deps.update(glob.glob(os.path.join(VERIF, "engine", "*")) + glob.glob(os.path.join(VERIF, "apps", "*")))
-    deps.add(os.path.join(VERIF, "engine/tl_hook.h"))
+    for f in ("engine/tl_hook.h", "engine/tl_wrap.cpp", "engine/tl_view.h"): deps.add(os.path.join(VERIF, f))
     for p in sorted(deps):
         if os.path.isfile(p):
             sha_file(h, p)
@@ -189,8 +189,9 @@ def build_check(ck, th=None):
         if ck["special"] == "tl_hook":
             # thread-link.cpp compiled with the instrumented std::atomic pre-include
             o = os.path.join(bdir, "tl_hooked-%s-%s-%s.o" % (tag, th[:12], eh[:12]))
-            cmd = ["g++", "-std=c++17"] + fl + inc + ["-w", "-include", os.path.join(VERIF, "engine/tl_hook.h"),
-                   "-c", os.path.join(REPO, "src/cpp/thread-link.cpp"), "-o", o]
+            cmd = ["g++", "-std=c++17"] + fl + inc + ["-w", "-fno-access-control",
+                   "-DVP_TL_SRC=\"%s\"" % os.path.join(REPO, "src/cpp/thread-link.cpp"),
+                   "-c", os.path.join(VERIF, "engine/tl_wrap.cpp"), "-o", o]
             rc, txt = run(cmd)
             if rc != 0:
                 sys.stderr.write("BUILD FAILED (hooked thread-link): %s\n%s\n" % (" ".join(cmd), txt)); raise SystemExit(3)
